@@ -54,6 +54,18 @@ Definition coerce_store (fixed : bool) (t : ty) (v : value) : res cell :=
   | _, _ => Rejected                                               (* other spellings are outside this model *)
   end.
 
+(* ---------- the repaired decoding (fix 4112ced4): the payload is decoded with UseNumber; a number whose text is an
+   integer that fits in 64 bits becomes a Go int exactly, anything else the float64 it was before.
+   exact = false is the old decoding (every number through float64). *)
+Definition json_int (exact : bool) (z : Z) : Z :=
+  if exact && (- two63 <=? z) && (z <? two63) then z else to_int (f64 z).
+
+Definition coerce_store_n (exact fixed : bool) (t : ty) (v : value) : res cell :=
+  match t, v with
+  | TInt, VInt z => Ok (CInteger (json_int exact z))
+  | _, _ => coerce_store fixed t v
+  end.
+
 (* ---------- read side: driver value -> CoerceToColumnType -> JSON *)
 Definition read (t : ty) (c : cell) : res value :=
   match t, c with
@@ -66,6 +78,9 @@ Definition read (t : ty) (c : cell) : res value :=
 
 Definition roundtrip (fixed : bool) (t : ty) (v : value) : res value :=
   match coerce_store fixed t v with Ok c => read t c | Rejected => Rejected end.
+
+Definition roundtrip_n (exact fixed : bool) (t : ty) (v : value) : res value :=
+  match coerce_store_n exact fixed t v with Ok c => read t c | Rejected => Rejected end.
 
 (* which values of a column type come back unchanged *)
 Definition representable (t : ty) (v : value) : Prop :=
@@ -116,7 +131,7 @@ Definition tstep (purge_all : bool) (s : tstate) (o : top) : tstate * option (re
       | None => (s, None)
       | Some t =>
           let tw := match cw s with Some c => c | None => t end in
-          (mkT (actual s) (match coerce_store true tw v with Ok c => Some c | Rejected => held s end) (Some tw) (cr s), None)
+          (mkT (actual s) (match coerce_store_n true true tw v with Ok c => Some c | Rejected => held s end) (Some tw) (cr s), None)
       end
   | TRead =>
       match actual s with
@@ -166,6 +181,11 @@ Fixpoint bad_ints (l : list (Z * Z)) (i : nat) : list nat :=
   match l with
   | [] => []
   | (z, want) :: r => if int_back z =? want then bad_ints r (S i) else i :: bad_ints r (S i)
+  end.
+Fixpoint bad_ints_n (exact : bool) (l : list (Z * Z)) (i : nat) : list nat :=
+  match l with
+  | [] => []
+  | (z, want) :: r => if json_int exact z =? want then bad_ints_n exact r (S i) else i :: bad_ints_n exact r (S i)
   end.
 Fixpoint bad_ts (fixed : bool) (l : list (Z * Z * (Z * Z))) (i : nat) : list nat :=
   match l with
